@@ -45,9 +45,22 @@ func directiveInsertWordBreaks(value data.Value, args []data.Value) data.Value {
 		input    = template.HTMLEscapeString(value.String())
 		maxChars = int(args[0].(data.Int))
 		chars    = 0
+		inEntity = false       // true within a character reference (&lt; etc) of the escaped text
 		output   *bytes.Buffer // create the buffer lazily
 	)
 	for i, ch := range input {
+		if inEntity {
+			// a character reference counts as the one character it stands for
+			// (counted at its '&') and is never broken.
+			if ch == ';' {
+				inEntity = false
+			}
+			if output != nil {
+				output.WriteRune(ch)
+			}
+			continue
+		}
+		inEntity = ch == '&'
 		switch {
 		case ch == ' ':
 			chars = 0
